@@ -425,7 +425,10 @@ theorem push_np (ext : Ext) (he : ExtNP ext) : âˆ€ (x : SVal) (b : B), NPInv b â
   | .f64 x, b, h => by rw [push, ctx_isPanic]; exact pushScalar_np ext he b _ h
   | .char x, b, h => by rw [push, ctx_isPanic]; exact pushScalar_np ext he b _ h
   | .str x, b, h => by rw [push, ctx_isPanic]; exact pushScalar_np ext he b _ h
-  | .unitStruct x, b, h => by rw [push, ctx_isPanic]; exact pushScalar_np ext he b _ h
+  | .unitStruct x, b, _ => by
+    cases b with
+    | unknownVariant p => simp only [push]; rw [ctx_isPanic]; rfl
+    | _ => simp only [push]; exact pushNone_no_panic _
 
 theorem pushElems_np (ext : Ext) (he : ExtNP ext) : âˆ€ (xs : SVals) (large : Bool) (el : B) (offs : List Int),
     NPInv el â†’ (pushElems ext large el offs xs).isPanic = false
